@@ -31,6 +31,28 @@ pub fn alive_tasks() -> usize {
 }
 
 static IPC_SEQ: AtomicU64 = AtomicU64::new(0);
+static PORT_SEQ: AtomicU64 = AtomicU64::new(0);
+
+/// An explicit TCP port from a range the harness manages itself (21000..29000,
+/// partitioned by process id, handed out round-robin). The OS never assigns these
+/// to port-0 binds or outgoing connections (ephemeral range 32768..60999), and no
+/// other case of this process gets the same one at the same time, so "a connect to
+/// this port succeeds" can only mean the socket under test is still listening.
+pub fn explicit_port() -> u16 {
+    let base = 21000 + (std::process::id() as u64 % 40) * 200;
+    (base + PORT_SEQ.fetch_add(1, Ordering::SeqCst) % 200) as u16
+}
+
+/// Endpoint text with an explicit harness-managed port for a tcp transport name.
+pub fn explicit_endpoint(transport: &str) -> String {
+    let p = explicit_port();
+    match transport {
+        "tcp4" => format!("tcp://127.0.0.1:{p}"),
+        "tcp6" => format!("tcp://[::1]:{p}"),
+        "localhost" => format!("tcp://localhost:{p}"),
+        _ => format!("ipc://{}", ipc_path()),
+    }
+}
 
 pub fn ipc_path() -> String {
     let dir = "/verif/.work/ipc";
